@@ -198,6 +198,27 @@ def entries() -> list[Entry]:
             lambda rng: PT(rng.randint(-100, 100), rng.randint(0, 9), _text(rng, 1, 4, string.ascii_lowercase)),
             buffered=True,
         ),
+        # fields whose value begins with NUL bytes (only the trailing padding is the serializer's to remove)
+        Entry(
+            "NamedTupleStructSerializer(bytes field)",
+            lambda: NamedTupleStructSerializer(PT, {"a": "i", "b": "H", "s": "4s"}, format_endianness="!", encoding=None),
+            lambda rng: PT(rng.randint(-100, 100), rng.randint(0, 9), rng.choice([b"\x00", b"\x00\x00", b"", b"\x00\x01"]) [: rng.randint(0, 2)] + bytes(rng.randrange(1, 256) for _ in range(rng.randint(1, 2)))),
+            buffered=True,
+        ),
+        Entry(
+            "NamedTupleStructSerializer(debug)",
+            lambda: NamedTupleStructSerializer(PT, {"a": "i", "b": "H", "s": "6s"}, format_endianness="<", debug=True),
+            lambda rng: PT(rng.randint(-100, 100), rng.randint(0, 9), rng.choice(["", "\0", "\0\0"]) + _text(rng, 1, 3, string.ascii_lowercase)),
+            buffered=True,
+        ),
+        # debug=True: the error objects carry more information, built on the failure path
+        Entry("JSONSerializer(lines,debug)", lambda: JSONSerializer(debug=True), _json_value),
+        Entry("JSONSerializer(raw,debug)", lambda: JSONSerializer(use_lines=False, debug=True), _json_value),
+        Entry("StringLineSerializer(LF,debug)", lambda: StringLineSerializer("LF", debug=True), gen_line, buffered=True),
+        Entry("StructSerializer(<hB,debug)", lambda: StructSerializer("<hB", debug=True), lambda rng: (rng.randint(-3000, 3000), rng.randint(0, 255)), buffered=True),
+        Entry("Zlib(JSON,debug)", lambda: ZlibCompressorSerializer(JSONSerializer(debug=True), debug=True), _json_value, buffered=True),
+        Entry("Base64(line,debug)", lambda: Base64EncoderSerializer(StringLineSerializer(debug=True), debug=True), gen_line, buffered=True),
+        Entry("PickleSerializer(debug)", lambda: PickleSerializer(unpickler_cls=_PyUnpickler, debug=True), _json_value, incremental=False),
         Entry("FixedSizePacketSerializer(subclass,5)", Fixed, gen_bytes(5, 5), buffered=True),
         Entry("AutoSeparatedPacketSerializer(subclass,'|;|')", Upper, lambda rng: _text(rng, 1, 10, string.ascii_letters + "|;é"), buffered=True),
         Entry("FileBasedPacketSerializer(subclass)", LengthPrefixed, gen_bytes(0, 20), buffered=True),
